@@ -62,6 +62,9 @@ type RPC struct {
 	CancelImmediately bool
 	ErrMsg            string // reterr text ("" = default)
 	ErrCode           uint64
+	// BadRequest: a unary call whose request the encoding cannot marshal (Invoke fails before anything of
+	// the call except, possibly, its metadata and a close was written).
+	BadRequest bool
 }
 
 const (
@@ -152,6 +155,7 @@ type World struct {
 	probes    int
 	Enc       drpc.Encoding
 	drained   bool
+	inherited map[int64]bool
 }
 
 func (w *World) now() int64 { return atomic.AddInt64(&w.Clock, 1) }
@@ -250,6 +254,11 @@ func NewWorld(cfg Config, rpcs []RPC) *World {
 	w := &World{Cfg: cfg, RPCs: rpcs, streams: map[int]drpc.Stream{}, cancels: map[int]func(){}, hstreams: map[int]drpc.Stream{},
 		HStarted: map[string]int{}, HReturned: map[string]int{}, HMeta: map[int]map[string]string{}, HCtxDone: map[int]bool{}, Recv: map[string][]uint32{}}
 	w.Enc = RawEnc{W: w}
+	// goroutines an earlier (failed) case of this process left behind are not this world's
+	w.inherited = map[int64]bool{}
+	for _, g := range DrpcGoroutines(Snapshot()) {
+		w.inherited[g.ID] = true
+	}
 	w.Points = NewPoints(cfg.Points)
 	w.Points.Limit = cfg.PointLimit
 	w.Points.Install()
@@ -349,6 +358,12 @@ func (w *World) streamScript(a *Actor, st drpc.Stream, k int, side byte, sub int
 		case "recv":
 			err := recvOne()
 			a.logf("recv -> %v", err)
+		case "sendbad": // a send whose encoding rejects the message: fails, nothing reaches the wire
+			p := MakePayload(uint32(k)<<8|uint32(sub), side, 0xffff, 1)
+			r := w.beginOp(a, "sendbad", k)
+			err := st.MsgSend(&p, BadMarshalEnc{})
+			w.endOp(r, err)
+			a.logf("sendbad -> %v", err)
 		case "recvbad": // a receive whose encoding rejects the (intact) message
 			var b []byte
 			r := w.beginOp(a, "recvbad", k)
@@ -580,8 +595,14 @@ func (w *World) StartClient(k int) *Actor {
 			r := w.beginOp(a, "invoke", k)
 			r.Size = spec.ReqSize
 			close(ready) // sub-actors (e.g. a canceller) may run while the invoke is in flight
-			err := w.Conn.Invoke(ctx, rpc, w.Enc, &in, &out)
-			if err == nil {
+			var enc drpc.Encoding = w.Enc
+			if spec.BadRequest {
+				enc = BadMarshalEnc{}
+			}
+			err := w.Conn.Invoke(ctx, rpc, enc, &in, &out)
+			if err == nil && spec.BadRequest {
+				w.Violate(fmt.Sprintf("rpc %d: Invoke of a request that cannot be marshalled returned nil", k))
+			} else if err == nil {
 				w.checkRecv(k, 's', out, r)
 			}
 			w.endOp(r, err)
@@ -950,8 +971,18 @@ func (w *World) Drain() []GInfo {
 	if w.B.Closes() == 0 {
 		w.B.Fail(false)
 	}
-	gs := WaitQuiescent()
-	return DrpcGoroutines(gs)
+	return w.Leaks(WaitQuiescent())
+}
+
+// Leaks returns the library goroutines in the snapshot that this world is responsible for: those that did
+// not exist when it was created.
+func (w *World) Leaks(gs []GInfo) (out []GInfo) {
+	for _, g := range DrpcGoroutines(gs) {
+		if !w.inherited[g.ID] {
+			out = append(out, g)
+		}
+	}
+	return out
 }
 
 // Dump renders the state of the world for failure details.
@@ -967,7 +998,7 @@ func (w *World) Dump() string {
 	w.mu.Lock()
 	fmt.Fprintf(&sb, "handlers started=%v returned=%v viol=%v\n", w.HStarted, w.HReturned, w.Viol)
 	w.mu.Unlock()
-	for _, g := range DrpcGoroutines(Snapshot()) {
+	for _, g := range w.Leaks(Snapshot()) {
 		fmt.Fprintf(&sb, "%s\n\n", g.Frames)
 	}
 	return sb.String()
